@@ -23,6 +23,7 @@ DOC = {
  "C14.R4": "pending-key table: mutated only by track/untrack (+constructor); track dominated by accept on the enqueue path; untrack on completion match, expiry, oldest-shed, abandoned in-flight, non-returnable failed hand-over",
  "C14.R5": "= C13.R7 + shrink: a finishing draining worker is not given work; shrink marks working workers draining and removes idle ones from both maps",
  "C14.R6": "idle events pull: completion (not draining), replacement and growth are followed on their path by try_route_next_active_job and the availability callback",
+ "C14.R8": "= C13.R5: submission order per key on one worker needs a bounced job to return to the queue *front* and a replacement to re-drive the queue head",
  "C14.R7": "round-robin: the cursor advances on every non-hinted choice and wraps at pool_size; pool_size == 0 returns None first",
 }
 
@@ -274,6 +275,10 @@ def r7(run, db):
         run.check(len(zt) == 1 and zt[0]["false_edge"] and (not stores or f.edge_dominates(zt[0]["false_edge"], stores[0][0])), "rr|zero-guard", "pool_size == 0 returns None first", None, f.where())
 
 
+def r8(run, db):
+    c13.r5(run, db)
+
+
 Q = ["dflt"]
 TH = ["dflt", "rc", "atr", "astd"]
-RULES = [{"id": "C14.R%d" % i, "fn": f, "quick": Q, "thorough": TH} for i, f in enumerate([r1, r2, r3, r4, r5, r6, r7], 1)]
+RULES = [{"id": "C14.R%d" % i, "fn": f, "quick": Q, "thorough": TH} for i, f in enumerate([r1, r2, r3, r4, r5, r6, r7, r8], 1)]
